@@ -54,10 +54,10 @@ def padRight (w : Nat) (s : String) : String := s ++ spaces (w - s.length)    --
 
 /-- `LegendHeaders.header` without the trailing newline -/
 def headerLine (f : DisplayFlags) : String :=
-  (headerCells f).foldl (fun acc c => acc ++ padLeft c.2 c.1 ++ " ") "" ++ "LC"
+  (headerCells f).foldl (fun acc c => acc ++ (padLeft c.2 c.1 ++ " ")) "" ++ "LC"
 /-- `LegendHeaders.separator` without the trailing newline -/
 def separatorLine (f : DisplayFlags) : String :=
-  (headerCells f).foldl (fun acc c => acc ++ dashes c.2 ++ " ") "" ++ "--"
+  (headerCells f).foldl (fun acc c => acc ++ (dashes c.2 ++ " ")) "" ++ "--"
 
 inductive Align where
   | left
